@@ -918,6 +918,12 @@ func (sa *Safe) joinCases(fr *frame, sig *types.Signature, name string, rets []r
 		for ri, rc := range rets {
 			ev := rc.vals[errIdx]
 			n := rc.st.valNil(ev)
+			if ev.NonNil {
+				n = nilNo
+			}
+			if os.Getenv("NASVERIF_DEBUG") == "guards" {
+				fmt.Fprintf(os.Stderr, "[e3] %s return %d: error nil-ness %v (NonNil=%v HasSym=%v) result0 nil-ness %v\n", name, ri, n, ev.NonNil, ev.HasSym, rc.st.valNil(rc.vals[0]))
+			}
 			retighten := func(p *State) {
 				for _, b := range binds[ri] {
 					p.itv[b.a] = p.atomItv(b.a).meet(p.linItv(b.lin))
@@ -1069,6 +1075,9 @@ func (sa *Safe) refine(st *State, c *Cond, branch bool) {
 			want = nilYes
 		}
 		cur := st.nilOf(c.Sym)
+		if os.Getenv("NASVERIF_DEBUG") == "guards" {
+			fmt.Fprintf(os.Stderr, "[e3] refine nil sym=%v want=%v cur=%v guard=%v\n", c.Sym, want, cur, st.guards[c.Sym] != nil)
+		}
 		if cur != nilMaybe && cur != want {
 			st.dead = true
 			return
